@@ -1,6 +1,6 @@
 (* C17 driver.  One line in, one line out.
 
-   sem <cap> <tmo> <n> <ev>...       ev = E<i> | A<i> | T<i> | Fo<i> | Fe<i> | Fp<i> | R<i>
+   sem <cap> <tmo> <n> <ev>...       ev = E<i> | A<i> | T<i> | C<i> (caller's context cancelled) | Fo<i> | Fe<i> | Fp<i> | R<i>
        replays the schedule through Sem.run_upto from Sem.sem_init n
        -> "ok|stuck@<k> chan=<z> running=<z> holders=<z> maxrun=<z> alldone=<b> pcs=<one letter per request>
            chans=<channel length after each enabled step, comma separated>"
@@ -22,6 +22,7 @@ let sem_label s =
   | 'E' -> (int_after s 1, Sem.LEnter)
   | 'A' -> (int_after s 1, Sem.LAcquire)
   | 'T' -> (int_after s 1, Sem.LTimeout)
+  | 'C' -> (int_after s 1, Sem.LCancel)
   | 'R' -> (int_after s 1, Sem.LRelease)
   | 'F' ->
     let o = (match s.[1] with 'o' -> Sem.OOk | 'e' -> Sem.OErr | 'p' -> Sem.OPanic | _ -> failwith ("c17 outcome " ^ s)) in
